@@ -346,6 +346,34 @@ def p11(ctx, rid):
         ctx.ok(rid, 'no-resort-of-versions', '', 'no sort of record-header vectors in %d index functions' % n, nontrivial=False, queries=n)
 
 
+def p12(ctx, rid):
+    """a leaf of the on-disk tree starts at the first header of a key: the (min key, offset) pair of a leaf is recorded in the
+    iteration over the keys of the in-memory index, never inside an inner loop over the versions of one key.  A boundary between
+    two versions of a key makes the separator equal to that key; the equal-key descent then lands in the right-hand leaf, the
+    leftmost scan stops at its first header, and a lookup answers with an older version than the in-memory index did"""
+    prog = ctx.prog
+    n = 0
+    bad = None
+    for f in prog.fns.values():
+        if f.file != 'src/blob/index/bptree/serializer.rs' or '::tests::' in f.id:
+            continue
+        # the leaf pass: a body that iterates over the in-memory index (BTreeMap iteration)
+        if not any(c.bb in f.reachable() and c.name == 'next' and 'btree' in c.full.lower() for c in f.calls):
+            continue
+        for c in f.calls:
+            if c.bb in f.reachable() and c.name == 'push' and c.path.startswith('std::vec::Vec') and 'u64)' in c.full:
+                d = core.loop_depth(f, c.bb)
+                n += 1
+                if d >= 2:
+                    bad = c
+    if n < 1:
+        raise core.AnchorLost('leaf boundary records in the leaf pass of the serializer: %d' % n)
+    if bad:
+        ctx.bad(rid, 'leaf-starts-at-key-boundary', bad.where(), 'a leaf boundary is recorded inside an inner loop of the key iteration (between the versions of one key): the leaf can start with an older version of the key its separator names')
+    else:
+        ctx.ok(rid, 'leaf-starts-at-key-boundary', '', '%d boundary records, each at the level of the key iteration' % n, nontrivial=False, queries=n)
+
+
 RULES = [
     Rule('C09.P1', 'keys are ordered through the key type, never as raw byte strings, in the index code (C04.T10 instances)', p1, 4),
     Rule('C09.P2', 'cursors over the on-disk leaf region move by whole record headers (C04.T12 instances)', p2, 4),
@@ -357,5 +385,6 @@ RULES = [
     Rule('C09.P9', 'the reused buffer of the on-disk walks is resized before every exact read (C05.V12 instances)', p9, 3),
     Rule('C09.P10', 'a completely filled non-leaf node fits into one block for every key length (polynomial evaluation of the fan-out and node-size formulas)', p10, 1),
     Rule('C09.P11', 'no function of the index code re-sorts a vector of record headers', p11, 1),
+    Rule('C09.P12', 'a leaf of the on-disk tree starts at the first header of a key', p12, 1),
     Rule('C09.P5', 'the on-disk latest-version lookup takes the leftmost header of the key', p5, 1),
 ]
